@@ -399,14 +399,14 @@ class Ctx:
 
     # ---- trace validation; returns (consumed, rejects)
     def validate(self, module, cfg, tracefile, shards=1, env=None, timeout=3000, heap='6g',
-                 group_key='Reset'):
+                 group_key='Reset', header=0):
         nlines = sum(1 for _ in open(tracefile, 'rb'))
         if nlines == 0:
             raise FrameworkError('empty trace %s' % tracefile)
         files = [tracefile]
         offsets = [0]
         if shards > 1 and nlines > 2000:
-            files, offsets = split_trace(tracefile, shards, group_key)
+            files, offsets = split_trace(tracefile, shards, group_key, header)
 
         def one(i):
             e = dict(env or {})
@@ -430,7 +430,7 @@ class Ctx:
             rejects += rj
             self.cov['states'] += res.distinct
             self.cov['transitions'] += res.generated
-        if consumed != nlines:
+        if consumed != nlines + header * (len(files) - 1):
             raise FrameworkError('trace %s: %d of %d lines consumed' % (tracefile, consumed, nlines))
         self.cov['trace_lines'] += nlines
         log('TRACE %s on %s: %d lines, %d rejects, %.1fs' %
@@ -516,23 +516,27 @@ class Ctx:
         return 1 if self.violations else 0
 
 
-def split_trace(tracefile, shards, group_key):
-    """Split an ndjson trace into ~shards files at lines containing group_key ("Reset")."""
+def split_trace(tracefile, shards, group_key, header=0):
+    """Split an ndjson trace into ~shards files (at lines containing group_key when given).
+    The first `header` lines are repeated at the top of every shard.  Returns (files, offsets) where
+    global line number = offset + line number within the shard."""
     lines = open(tracefile, 'rb').read().splitlines(True)
-    n = len(lines)
+    hdr, body = lines[:header], lines[header:]
+    n = len(body)
     target = max(1000, n // shards + 1)
     files, offsets = [], []
-    start, i, k = 0, 0, 0
+    start, k = 0, 0
     key = ('"%s"' % group_key).encode() if group_key else None
     while start < n:
         end = min(n, start + target)
-        while key and end < n and key not in lines[end]:
+        while key and end < n and key not in body[end]:
             end += 1
         fn = '%s.shard%d' % (tracefile, k)
         with open(fn, 'wb') as f:
-            f.writelines(lines[start:end])
+            f.writelines(hdr)
+            f.writelines(body[start:end])
         files.append(fn)
-        offsets.append(start)
+        offsets.append(start)          # shard line l (l > header) is global line start + l
         start = end
         k += 1
     return files, offsets
@@ -627,7 +631,7 @@ def main(argv=None):
 # the standard M1/M2/M3 pipeline for function-like subsystems
 # --------------------------------------------------------------------------
 def lattice_pipeline(ctx, mc_module, parts, to_rows, driver, replay_args, record_args,
-                     trace_module, trace_cfg=None, flavour_record=None, min_vectors=100,
+                     trace_module, trace_cfg=None, flavour_record=None, min_vectors=100, header=0,
                      parallel_gen=True, gen_workers=None, trace_env=None, drv_flags=(), drv_libs=()):
     """parts: list of (label, cfg_text).  Each MC run checks the model invariants and emits vectors
     (INVARIANT Emit).  Vectors are replayed on the real library; the replay trace and a seeded random
@@ -670,7 +674,7 @@ def lattice_pipeline(ctx, mc_module, parts, to_rows, driver, replay_args, record
         traces.append(rt)
     for tf in traces:
         n, rej = ctx.validate(trace_module, trace_cfg or trace_module, tf, shards=NCPU, group_key=None,
-                              env=trace_env)
+                              env=trace_env, header=header)
         ctx.cov['traces_validated_against_impl'] += 1
         ctx.report_rejects(rej, tf)
         with open(tf) as f:
